@@ -284,3 +284,55 @@ func IntBoth(m *big.Int) *rapid.Generator[*big.Int] {
 		return v
 	})
 }
+
+// WordProducts enumerates every 256-bit value whose wordBits-wide words are each taken from choices(word of base):
+// an exhaustive sweep of the neighbourhood of a comparison constant at word granularity.
+func WordProducts(base *big.Int, wordBits uint, choices func(w uint64, mask uint64) []uint64) []*big.Int {
+	n := 256 / int(wordBits)
+	mask := ^uint64(0)
+	if wordBits < 64 {
+		mask = 1<<wordBits - 1
+	}
+	opts := make([][]uint64, n)
+	for i := 0; i < n; i++ {
+		w := new(big.Int).And(new(big.Int).Rsh(base, uint(i)*wordBits), new(big.Int).SetUint64(mask)).Uint64()
+		seen := map[uint64]bool{}
+		for _, c := range choices(w, mask) {
+			c &= mask
+			if !seen[c] {
+				seen[c] = true
+				opts[i] = append(opts[i], c)
+			}
+		}
+	}
+	var out []*big.Int
+	idx := make([]int, n)
+	for {
+		v := new(big.Int)
+		for i := n - 1; i >= 0; i-- {
+			v.Lsh(v, wordBits).Or(v, new(big.Int).SetUint64(opts[i][idx[i]]))
+		}
+		out = append(out, v)
+		k := 0
+		for k < n {
+			idx[k]++
+			if idx[k] < len(opts[k]) {
+				break
+			}
+			idx[k] = 0
+			k++
+		}
+		if k == n {
+			return out
+		}
+	}
+}
+
+// Neighbours5 is {w-1, w, w+1, 0, all-ones}; Neighbours3 is {w-1, w, w+1}; Patterns4 ignores w: {0, 1, 2^(bits-1), all-ones}.
+func Neighbours5(w, mask uint64) []uint64 { return []uint64{w - 1, w, w + 1, 0, mask} }
+
+// Neighbours3 is {w-1, w, w+1}.
+func Neighbours3(w, mask uint64) []uint64 { return []uint64{w - 1, w, w + 1} }
+
+// Patterns4 is {0, 1, top bit, all-ones}.
+func Patterns4(w, mask uint64) []uint64 { return []uint64{0, 1, mask ^ (mask >> 1), mask} }
